@@ -543,6 +543,65 @@ def chooser_cli(rng, sc):
     return choose
 
 
+def chooser_prefix(prefix, record):
+    """Systematic exploration (stateless model checking of the REAL threads): follow `prefix` (indices into the sorted list
+    of enabled steps), then always take the first enabled step; `record` receives, per step, how many options there were.
+    A waiting thread may time out at most once in a row (a second consecutive timeout of the same thread changes nothing)."""
+    def factory(rng, sc):
+        last_timeout = {}
+
+        def options(en, s):
+            out = []
+            for e in en:
+                if e[1] == "timeout" and last_timeout.get(e[0]):
+                    continue
+                out.append(e)
+            return out or en
+
+        def choose(en, s):
+            opts = options(en, s)
+            k = len(record)
+            i = prefix[k] if k < len(prefix) else 0
+            if i >= len(opts):
+                i = 0
+            record.append(len(opts))
+            c = opts[i]
+            last_timeout[c[0]] = (c[1] == "timeout")
+            return c
+        return choose
+    return factory
+
+
+def explore_systematically(base, tmproot, max_runs):
+    """Depth-first enumeration of the schedules of one small scenario; returns the list of (sc, impl, obs) runs and whether
+    the enumeration was complete."""
+    sys.path.insert(0, REPO)
+    os.makedirs(tmproot, exist_ok=True)
+    stack = [[]]
+    runs = []
+    while stack and len(runs) < max_runs:
+        prefix = stack.pop()
+        record = []
+        sc = dict(base, seed=0.5)
+        impl, obs = scenario(sc, tmproot, chooser_prefix(prefix, record))
+        sc["systematic_prefix"] = list(prefix)
+        runs.append((sc, impl, obs))
+        for k in range(len(record) - 1, len(prefix) - 1, -1):
+            for alt in range(1, record[k]):
+                stack.append(prefix[:k] + [0] * 0 + list(_pad(prefix, k)) + [alt])
+    return runs, not stack
+
+
+def _pad(prefix, k):
+    """choices for steps len(prefix)..k-1 were the default 0"""
+    return [0] * (k - len(prefix)) if k > len(prefix) else []
+
+
+def _explore_job(args):
+    base, tmproot, max_runs = args
+    return explore_systematically(base, tmproot, max_runs)
+
+
 def chooser_follow(schedule):
     """Follow a TLC behaviour: schedule = list of (thread, decision-or-None)."""
     def factory(rng, sc):
@@ -766,6 +825,32 @@ def check(prop, tier, replay=None):
             scs.append(sc)
     runs = run_scenarios(scs, tmproot)
     report_runs(V, prop, runs, wd, "T")
+    # ---- leg X: EVERY schedule (up to a cap) of tiny configurations on the real threads, depth-first
+    t1 = time.time()
+    tiny = []
+    for pat, obs_kinds, saver, stop in ([([True], ["rec"], False, None), ([True, False], ["rec"], False, 1), ([True], [], True, None)]
+                                        if tier == "quick" else
+                                        [([True], ["rec"], False, None), ([True, False], ["rec"], False, 1), ([True, True], ["rec"], False, 2), ([True], [], True, None),
+                                         ([True], ["rec"], True, 0), ([True, False, True], ["rec", "rec"], False, None), ([True, True], ["rec"], True, 3)]):
+        if prop == "C12" and stop is not None:
+            continue
+        if prop == "C14" and stop is None:
+            continue
+        if prop == "C13" and not saver:
+            continue
+        tiny.append(dict(pat=pat, B=1, sr=10, sw=2, ch=1, p=(1, 2, 0, False, False), obs=obs_kinds, saver=saver, cache_blocks=1, stop_after=stop,
+                         tail=1, silence=0.0, validator="custom", max_steps=100000))
+    cap = 260 if tier == "quick" else 12000
+    xruns = []
+    complete = []
+    if tiny:
+        with ProcessPoolExecutor(max_workers=min(NCPU, len(tiny))) as ex:
+            for (rs, done_), base in zip(ex.map(_explore_job, [(b, os.path.join(tmproot, f"x{i}"), cap) for i, b in enumerate(tiny)]), tiny):
+                xruns += rs
+                complete.append({"windows": base["pat"], "observers": len(base["obs"]), "saver": base["saver"], "stop_after": base["stop_after"],
+                                 "schedules": len(rs), "all_schedules_enumerated": bool(done_)})
+        report_runs(V, prop, xruns, wd, "X")
+    V.leg("X", configurations=complete, runs=len(xruns), wall_s=round(time.time() - t1, 2))
     V.leg("T", runs=len(runs), events=sum(len(r[1]["ev"]) for r in runs), statuses=count_status(runs), wall_s=round(time.time() - t0, 2))
     shutil.rmtree(tmproot, ignore_errors=True)
     return V.finish(
